@@ -382,9 +382,18 @@ func (k *kernelRun) step(f []string) (out string) {
 				k.gwAccepted[bind+"\x00"+h] = true
 			}
 		}
+		// the (bind, host) pairs the table remembers: a plain key is host -> first bind, a composite key
+		// "\x00bind\x00host" a further bind of that host
 		var keys []string
-		for key := range k.gwTable {
-			keys = append(keys, key)
+		for key, b := range k.gwTable {
+			if strings.HasPrefix(key, "\x00") {
+				p := strings.SplitN(key[1:], "\x00", 2)
+				if len(p) == 2 {
+					keys = append(keys, p[0]+"/"+p[1])
+					continue
+				}
+			}
+			keys = append(keys, b+"/"+key)
 		}
 		return "dups=" + wire.EncList(dups) + " table=" + wire.EncSet(keys)
 	case "lc":
